@@ -295,6 +295,49 @@ pub fn make_foreign_fixture_sized(ch: &Choices, seekable: bool, small: bool) -> 
             *s = 16 + (rng.next() % if small { 24 } else { 120 }) as usize;
         }
     }
+    // every entry of the block-size code table, so that the decoder's table is exercised
+    // independently of the encoder's
+    let table_sizes = !small && ch.draw("rdg.size.table", 3) == 0;
+    let mut channels = channels;
+    let mut assign = assign;
+    if table_sizes {
+        let t = *ch.pick("rdg.size.t", &[192usize, 576, 1152, 2304, 4608, 256, 512, 1024, 2048, 4096, 8192, 16384, 32768]);
+        sizes.truncate(3);
+        for s in sizes.iter_mut() {
+            *s = if variable { *ch.pick("rdg.size.t2", &[192usize, 576, 1152, 2304, 4608, 256, 512, 1024, 2048, 4096]) } else { t };
+        }
+        if channels > 2 {
+            channels = 2;
+            assign = 4;
+        }
+        probe("rd_block_sizes_from_code_table");
+    }
+    let base = if table_sizes { sizes[0] } else { base };
+    // every way of coding the sample rate in a frame header
+    let (rate, rate_code, rate_ext): (u32, u8, Option<u32>) = *ch.pick(
+        "rdg.rate",
+        &[
+            (44100u32, 9u8, None),
+            (88200, 1, None),
+            (176400, 2, None),
+            (192000, 3, None),
+            (8000, 4, None),
+            (16000, 5, None),
+            (22050, 6, None),
+            (24000, 7, None),
+            (32000, 8, None),
+            (48000, 10, None),
+            (96000, 11, None),
+            (1000, 12, Some(1)),
+            (255000, 12, Some(255)),
+            (65535, 13, Some(65535)),
+            (12345, 13, Some(12345)),
+            (655350, 14, Some(65535)),
+            (22050, 14, Some(2205)),
+            (44100, 0, None),
+            (7, 13, Some(7)),
+        ],
+    );
     // the last frame may be short
     if ch.draw("rdg.last.short", 2) == 1 {
         *sizes.last_mut().unwrap() = 1 + ch.draw("rdg.last", base.max(17) as u64 - 1) as usize;
@@ -311,6 +354,8 @@ pub fn make_foreign_fixture_sized(ch: &Choices, seekable: bool, small: bool) -> 
         let number = if variable { pos } else { k as u64 };
         let mut m = make_frame_from(ch, &mut rng, bps, bps_code, assign, chans, number)?;
         m.spec.bend.variable = variable;
+        m.spec.rate_code = rate_code;
+        m.spec.bend.rate_ext = rate_ext;
         frames.push(refflac::write_frame(&m.spec));
         for i in 0..*n {
             for c in &m.chans {
@@ -327,7 +372,6 @@ pub fn make_foreign_fixture_sized(ch: &Choices, seekable: bool, small: bool) -> 
     } else {
         (base as u16, base as u16)
     };
-    let rate = 44100u32;
     let si = Streaminfo {
         minimum_block_size: minb,
         maximum_block_size: maxb.max(minb),
@@ -442,8 +486,14 @@ fn run_history(ctx: &mut Ctx, with_seeks: bool, foreign: bool) -> R {
     };
     let front = *ch.pick("rd.front", &[Front::Sample, Front::ByteLE, Front::ByteBE, Front::Channel, Front::SampleIter]);
     let off = *ch.pick("rd.off", &[0usize, 0, 3, 64]);
-    let ben = Benign::draw(&ch);
-    let cap = draw_bufcap(&ch);
+    let mut ben = Benign::draw(&ch);
+    let mut cap = draw_bufcap(&ch);
+    if fx.bytes.len() > 40_000 {
+        // large generator-made files (block sizes from the code table): byte-sized transfers over a
+        // history full of rewinding seeks would exhaust the event budget without testing anything new
+        ben = Benign::none();
+        cap = cap.max(4096);
+    }
     // every split point in turn is swept by the dedicated scenario `c07split`; here one drawn cut
     let cut = if ch.draw("rd.cut", 3) == 2 { Some((off as u64) + ch.draw("rd.cut.at", fx.bytes.len() as u64 + 1)) } else { None };
     let c = fx.cfg.channels as usize;
